@@ -11,9 +11,8 @@ global size_of usize == 8;
 //@include common/build_prelude.rs.inc
 impl From<IoErr> for SudachiError { #[verifier::external_body] fn from(e: IoErr) -> SudachiError { SudachiError::Other } }
 #[verifier::external_body] fn string_clone(s: &String) -> (r: String) ensures r@ == s@ { s.clone() }
-pub uninterp spec fn le64(v: u64) -> Seq<u8>;
+//@include specs/codec64.rs.inc
 #[verifier::external_body] fn u64_to_le_bytes(v: u64) -> (r: [u8; 8]) ensures r@ == le64(v), r@.len() == 8 { v.to_le_bytes() }
-proof fn axiom_le64_len(v: u64) ensures le64(v).len() == 8 { admit(); }
 #[verifier::external_body] fn zero_byte() -> (r: [u8; 1]) ensures r@ == seq![0u8] { [0] }
 pub open spec fn sbytes(s: Seq<char>) -> Seq<u8> { vstd::utf8::encode_utf8(s) }
 #[verifier::external_body] fn string_as_bytes(s: &String) -> (r: &[u8]) ensures r@ == sbytes(s@) { s.as_bytes() }
@@ -32,6 +31,19 @@ spec fn zeros(n: int) -> Seq<u8> decreases n { if n <= 0 { Seq::empty() } else {
 proof fn lemma_zeros_len(n: int) requires n >= 0 ensures zeros(n).len() == n decreases n { if n > 0 { lemma_zeros_len(n - 1); } }
 /// version, creation time, description padded with NUL bytes to 256
 spec fn header_bytes(h: Header) -> Seq<u8> { le64(h.version.sp_u64()) + le64(h.create_time) + sbytes(h.description@) + zeros(256 - sbytes(h.description@).len()) }
+/// C05, header (session 5): in the bytes `Header::write_to` emits, the reader's two little-endian u64 fields (v_header: le64_at at
+/// offsets 0 and 8) are the version number and the creation time that were written - a fact about the bytes (le64 / le64_at concrete)
+proof fn theorem_header_numbers_roundtrip(h: Header, rest: Seq<u8>)
+    ensures le64_at(header_bytes(h) + rest, 0) == h.version.sp_u64(), le64_at(header_bytes(h) + rest, 8) == h.create_time
+{
+    let a = le64(h.version.sp_u64()); let b = le64(h.create_time);
+    let tail = sbytes(h.description@) + zeros(256 - sbytes(h.description@).len()) + rest;
+    lemma_le64_len(h.version.sp_u64()); lemma_le64_len(h.create_time);
+    assert(header_bytes(h) + rest =~= Seq::<u8>::empty() + a + (b + tail));
+    lemma_le64_roundtrip(Seq::<u8>::empty(), h.version.sp_u64(), b + tail);
+    assert(header_bytes(h) + rest =~= a + b + tail);
+    lemma_le64_roundtrip(a, h.create_time, tail);
+}
 impl Header {
 //@extract sudachi/src/dic/header.rs :: impl Header :: const DESCRIPTION_SIZE
 //@end
@@ -64,7 +76,7 @@ impl Header {
             r is Ok ==> final(w).sink() == old(w).sink() + header_bytes(*self) && r->Ok_0 == 272 && header_bytes(*self).len() == 272,
 //@  atstart
         let ghost s0 = w.sink();
-        proof { axiom_le64_len(self.version.sp_u64()); axiom_le64_len(self.create_time); }
+        proof { lemma_le64_len(self.version.sp_u64()); lemma_le64_len(self.create_time); }
 //@  loop 1
             invariant
                 sbytes(self.description@).len() <= 256, __end__ == 256 - sbytes(self.description@).len(), __it__ <= __end__,
